@@ -35,7 +35,7 @@ ASSUMPTIONS = [
     "BlackBox objects are intentionally shared between circuits; only the registry dict must not be shared",
 ]
 EXHAUSTIVE_NOTE = "core: every registry entry once on a fixed blackbox-free circuit and once on a fixed circuit with a flop, with a fixed 12-step edit script"
-EXAMPLES = {"quick": 500, "thorough": 12000}
+EXAMPLES = {"quick": 1200, "thorough": 15000}
 
 
 # ------------------------------------------------------------------ registry
@@ -85,7 +85,7 @@ REG = {
     "props.signal_probability": lambda c, c2, p, t: cg.props.signal_probability(c, _first(c.nodes(), p), approx=False),
     "props.signal_probability_approx": lambda c, c2, p, t: cg.props.signal_probability(c, _first(c.nodes(), p), approx=True),
     "props.levelize": lambda c, c2, p, t: cg.props.levelize(c),
-    "props.influence_supergates": lambda c, c2, p, t: cg.props.influence(c, _first(c.outputs(), p), supergates=True, approx=False),
+    "props.influence_supergates": lambda c, c2, p, t: cg.props.influence(c, _first(c.nodes(), p), supergates=True, approx=False),
     "props.avg_sensitivity_list": lambda c, c2, p, t: cg.props.avg_sensitivity(c, sorted(c.outputs())[:2], approx=False),
     "props.influence_approx_logdir": lambda c, c2, p, t: cg.props.influence(c, _first(c.nodes(), p), approx=True, log_dir=os.path.join(t, "logs")),
     "props.sensitize_assume": lambda c, c2, p, t: cg.props.sensitize(c, _first(c.nodes(), p), {_first(c.inputs(), p): True}),
@@ -200,7 +200,7 @@ def _case(draw, ctx):
     else:
         spec = draw(S.circuit_spec(min_inputs=0, max_inputs=2, min_gates=2, max_gates=6, max_fanin=3, cyclic=True))
     spec2 = draw(S.circuit_spec(min_inputs=1, max_inputs=3, min_gates=1, max_gates=5, max_fanin=3))
-    edits = draw(st.lists(st.tuples(st.integers(0, 11), st.integers(0, 30)).map(list), min_size=1, max_size=8))
+    edits = draw(st.lists(st.tuples(st.integers(0, 15), st.integers(0, 30)).map(list), min_size=1, max_size=8))
     return {"fn": fn, "spec": spec, "spec2": spec2, "pick": draw(st.integers(0, 60)), "edits": edits,
             "raw_attrs": draw(st.integers(0, 2)) == 0}
 
@@ -241,6 +241,22 @@ def _edit(x, edits):
             g.nodes[nodes[pk % len(nodes)]].update(zz_extra=pk)
         elif op == 11 and edges:
             g.edges[edges[pk % len(edges)]]["zz_w"] = pk
+        elif op == 12 and x.blackboxes:
+            # edits through the public API: fill an instance with a matching child
+            inst = sorted(x.blackboxes)[pk % len(x.blackboxes)]
+            bb_ = x.blackboxes[inst]
+            child = cg.Circuit(name="zz_child")
+            for i_ in sorted(bb_.inputs()):
+                child.add(i_, "input")
+            for o_ in sorted(bb_.outputs()):
+                child.add(o_, "1", output=True)
+            lib(x.fill_blackbox, inst, child)
+        elif op == 13:
+            lib(x.add_blackbox, cg.BlackBox("zzt2", ["i"], ["o"]), f"zz_bb{pk}")
+        elif op == 14 and nodes:
+            lib(x.remove, nodes[pk % len(nodes)])
+        elif op == 15 and nodes:
+            lib(x.set_output, nodes[pk % len(nodes)], bool(pk % 2))
     return refsim.snapshot(x) != before
 
 
